@@ -28,10 +28,13 @@ RULE = (
 
 EXPRS = ["x + 1", "x + y", "a.b", "a.b + x", "a.c", "a.b.c", "[1, 2].map(x, x + y)", "x > 0 || 1 / 0 == 1", "size([x, y])", "has(m.f)", "m.f", "v", "p.v", "true ? x : y",
          "type(x) == int", "[x].exists(x, x == 1)", "a", "x == 1 && a.b == 10", "1 + 2", "s + 'x'", "s.size()", "[1, 2, 3].filter(i, i > x)",
-         "shout(s)", "size(s)", "s.shout()", "size([x, y]) + size(s)"]
+         "shout(s)", "size(s)", "s.shout()", "size([x, y]) + size(s)",
+         # arguments that a process-wide cache keyed too loosely (case, whitespace, type) would confuse: zone names, patterns, conversions
+         "timestamp('2009-02-13T23:31:30Z').getHours(z)", "'abc'.matches(z)", "timestamp('2009-02-13T23:31:30Z').getDate(z) + size(z)"]
 BINDINGS: List[Dict[str, Any]] = [
     {"x": 1, "y": 2}, {"x": 5}, {}, {"a.b": 10}, {"a.b": 10, "x": 1}, {"a.b": 1, "a.c": 2}, {"a.c": 3}, {"a": {"b": 7}}, {"a": {"b": 7, "c": 8}, "x": 2}, {"a.b.c": 4},
     {"m": {"f": 1}}, {"m": {}}, {"p.v": 3}, {"v": 4}, {"p.q.v": 5, "v": 6}, {"s": "abc"}, {"x": 1, "y": 2, "s": "q"}, {"y": 9}, {"a.b": 20}, {"x": 0, "y": 0},
+    {"z": "Asia/Tokyo"}, {"z": "asia/tokyo"}, {"z": "a.c"}, {"z": "A.C"}, {"z": "+09:00"}, {"z": "ASIA/TOKYO"},
 ]
 ENVS = [(r, p, a) for r in ("I", "C") for p in (None, "p", "p.q") for a in ("none", "plain", "dotted")]
 ANNOTATIONS = {"none": {}, "plain": {"x": "int", "s": "string"}, "dotted": {"a.b": "int", "x": "int"}}
@@ -250,6 +253,11 @@ FIXED_HISTORIES = [
     [("env", ENVS.index(("I", None, "none"))), ("prog", 0, EXPRS.index("size(s)"), 0), ("eval", 0, 15), ("prog", 0, EXPRS.index("shout(s)"), 3), ("eval", 1, 15), ("reeval", 0),
      ("prog", 0, EXPRS.index("size(s)"), 0), ("eval", 2, 15), ("prog", 0, EXPRS.index("shout(s)"), 0), ("eval", 3, 15),
      ("env", ENVS.index(("C", None, "none"))), ("prog", 1, EXPRS.index("size(s)"), 0), ("eval", 4, 15)],
+    # an argument spelled slightly wrong, before and after the right spelling has been used by another program (in another environment)
+    [("env", ENVS.index(("I", None, "none"))), ("prog", 0, EXPRS.index("timestamp('2009-02-13T23:31:30Z').getHours(z)"), 0), ("eval", 0, BINDINGS.index({"z": "asia/tokyo"})),
+     ("env", ENVS.index(("C", None, "none"))), ("prog", 1, EXPRS.index("timestamp('2009-02-13T23:31:30Z').getDate(z) + size(z)"), 0), ("eval", 1, BINDINGS.index({"z": "Asia/Tokyo"})),
+     ("eval", 0, BINDINGS.index({"z": "asia/tokyo"})), ("eval", 1, BINDINGS.index({"z": "ASIA/TOKYO"})),
+     ("prog", 0, EXPRS.index("'abc'.matches(z)"), 0), ("eval", 2, BINDINGS.index({"z": "a.c"})), ("eval", 2, BINDINGS.index({"z": "A.C"})), ("eval", 2, BINDINGS.index({"z": "a.c"}))],
     [("env", ENVS.index(("I", None, "none"))), ("prog", 0, EXPRS.index("s.shout()"), 1), ("eval", 0, 15), ("prog", 0, EXPRS.index("size(s)"), 4), ("eval", 1, 15),
      ("env", ENVS.index(("I", "p", "none"))), ("prog", 1, EXPRS.index("size([x, y]) + size(s)"), 0), ("eval", 2, 16), ("prog", 1, EXPRS.index("s.shout()"), 0), ("eval", 3, 15)],
 ]
